@@ -144,6 +144,10 @@ type Station struct {
 	askedOnce map[string]bool // "once=" policy: MIDs that were already deferred once
 	// fault: fail the n-th ProcessInbound call of a session (1-based), 0 = never
 	FailStoreAt int
+	// OutboundGate: from the second call on, GetOutbound waits (at most 3 s) until this channel is closed - a mailbox that is
+	// slow to answer while the other station has already said FQ and hung up
+	OutboundGate <-chan struct{}
+	nOutbound    int
 	FSFailAt    int // directory mailbox: the n-th store hits a real file-system fault
 	nStore      int
 	Batched     bool
@@ -199,6 +203,16 @@ func (s *Station) Prepare() error {
 }
 
 func (s *Station) GetOutbound(fw ...fbb.Address) []*fbb.Message {
+	s.mu.Lock()
+	s.nOutbound++
+	gate, n := s.OutboundGate, s.nOutbound
+	s.mu.Unlock()
+	if gate != nil && n >= 2 {
+		select {
+		case <-gate:
+		case <-time.After(3 * time.Second):
+		}
+	}
 	if s.Dir != nil {
 		out := s.Dir.GetOutbound(fw...)
 		mids, fws := []string{}, []string{}
